@@ -1,0 +1,22 @@
+//go:build verif
+
+package metrics
+
+// Contracts for govc (see /verif/DESIGN.md). Compiled only with -tags verif.
+
+// NOT CLAIMED (pseudo-property X36: the exit obligation gets no solver answer; a bounded
+// stand-in /verif/bounded/C36 is used instead). The retain point AnalyzeWALBacklog computes - every segment below
+// it that holds raft records is reported removable and deleted by wal.Watchdog - lies at or
+// below EVERY raft group's pointer: at or below its Segment when set and at or below its
+// SegmentIndex when set (both, not one or the other), for all pointer tables.
+//@ func (WALRecordMetrics).RaftRecords
+//@   trusted
+//@   modifies nothing
+//@ func (WALRecordMetrics).Total
+//@   trusted
+//@   modifies nothing
+//@ func AnalyzeWALBacklog
+//@   property X36
+//@   exit [retain-point-below-every-pointer] forall gid uint64 :: has(ptrs, gid) ==> (ptrs[gid].Segment == 0 || retainSegment <= ptrs[gid].Segment) && (ptrs[gid].SegmentIndex == 0 || math(retainSegment) <= math(ptrs[gid].SegmentIndex))
+//@   exit [reported-retain-point] result.RetainSegment == retainSegment
+//@   loop 2 invariant [seen-above-retain] forall gid uint64 :: seen(gid) ==> (ptrs[gid].Segment == 0 || retainSegment <= ptrs[gid].Segment) && (ptrs[gid].SegmentIndex == 0 || math(retainSegment) <= math(ptrs[gid].SegmentIndex))
